@@ -21,6 +21,8 @@ def run(ctx):
     a_confinement(ctx, t)
     b_threads(ctx, t)
     c_stores(ctx)
+    a_instance_cache_key(ctx, t)
+    b_threads_v2(ctx, t)
 
 
 def _raises_valueerror(ifnode):
@@ -109,8 +111,34 @@ def a_confinement(ctx, t):
         fs = [n for n in cfg.nodes if n.ast is not None and n is not sink and any(
             isinstance(x, ast.Call) and re.match(r"^(open|os\.listdir|os\.path\.(exists|isdir|isfile)|os\.scandir|os\.walk|glob\.glob)$", src(x.func))
             and any(isinstance(a, ast.Name) and a.id in (pv, raw) for y in x.args for a in ast.walk(y)) for x in walk_no_nested(n.ast))]
-        ctx.check("C20.a.no-early-fs", API, unit, "no file-system access on the request path before the tests", not fs,
-                  "only the guarded RailsConfig.from_path touches the file system with the request-derived path", line=c.lineno)
+        guarding = [n for n, _, _ in raw_tests] + cont_tests
+        early = [n for n in fs if not (any(cfg.dominates(g, n) for g, _, _ in raw_tests) and any(cfg.dominates(g, n) for g in cont_tests))]
+        ctx.check("C20.a.no-early-fs", API, unit, "no file-system access on the request path before the tests", not early,
+                  "every file-system access with the request-derived path (%d besides the load) comes after the raw-id test and the containment test" % len(fs) if not early else
+                  "`%s` touches the file system with the request-derived path before both tests have passed" % first_line(early[0].ast, 60), line=(early[0].line if early else c.lineno))
+        # the id must name a FOLDER directly inside the root: "" and "." (the root itself) are rejected, and the path is tested to be a directory
+        id_tests = [n for n in cfg.nodes if n.kind == "test" and isinstance(n.stmt, ast.If) and _raises_valueerror(n.stmt) and (cfg.dominates(n, sink) or _loop_dominates(cfg, n, sink))]
+        rejects_root = False
+        for n in id_tests:
+            for x in ast.walk(n.ast):
+                if isinstance(x, ast.Compare) and isinstance(x.ops[0], ast.In) and isinstance(x.comparators[0], (ast.List, ast.Tuple, ast.Set)):
+                    vals = {e.value for e in x.comparators[0].elts if isinstance(e, ast.Constant)}
+                    if {"", "."} <= vals:
+                        rejects_root = True
+            for n2, pat, f in raw_tests:
+                if n2 is n and f == "re.search" and re.search(pat, "") is not None and re.search(pat, ".") is not None:
+                    rejects_root = True
+            if re.search(r"os\.path\.dirname\(\w+\)\s*!=\s*%s" % base, src(n.ast)):
+                rejects_root = True
+        ctx.check("C20.a.raw-id-test", API, unit, "ids naming the root itself are rejected", rejects_root,
+                  "the ids \"\" and \".\" (which normalise to the root) raise ValueError before the load" if rejects_root else
+                  "nothing rejects the ids \"\" and \".\": they pass the separator test, normalise to the ROOT and pass the containment test (full_path == base_path), so the server loads the root itself - "
+                  "every sub-folder merged into one configuration, including folders the listing hides", line=c.lineno)
+        dir_tests = [n for n in id_tests if re.search(r"not\s+os\.path\.isdir\(%s\)" % pv, src(n.ast))]
+        ctx.check("C20.a.is-directory", API, unit, "the path is a directory", bool(dir_tests),
+                  "a path that is not a directory raises ValueError before the load" if dir_tests else
+                  "the load is not preceded by a directory test: RailsConfig.from_path opens any `*.yml`/`*.yaml` PATH as a file, so the id `x.yml` raises FileNotFoundError (HTTP 500 instead of the fixed reply) "
+                  "and an existing `notes.yml` in the root is loaded as a configuration", line=c.lineno)
         # single-config mode: id replaced by a constant only under equality with the configured id
         repl = [n for n in cfg.nodes if n.kind == "stmt" and isinstance(n.ast, ast.Assign) and isinstance(n.ast.value, ast.List)
                 and len(n.ast.value.elts) == 1 and isinstance(n.ast.value.elts[0], ast.Constant)]
@@ -223,6 +251,78 @@ def _anc(node, stop):
     while p is not None and p is not stop:
         yield p
         p = getattr(p, "_parent", None)
+
+
+def a_instance_cache_key(ctx, t):
+    """The instance cache maps a LIST of config ids to one LLMRails.  Its key must be injective on valid id lists (a separator that no valid id can contain), and the ids
+    must have been validated before the cache is consulted - otherwise ["a","b"] is answered by the instance cached for ["a-b"]."""
+    kf = find_function(t, "_generate_cache_key")
+    gr = find_function(t, "_get_rails")
+    if kf is None or gr is None:
+        raise AnalysisError("_generate_cache_key / _get_rails not found", anchor=API + "::_generate_cache_key")
+    rets = [r for r in ast.walk(kf) if isinstance(r, ast.Return)]
+    sep = None
+    how = None
+    for r in rets:
+        v = r.value
+        if isinstance(v, ast.Call) and isinstance(v.func, ast.Attribute) and v.func.attr == "join" and isinstance(v.func.value, ast.Constant):
+            sep = v.func.value.value
+        elif isinstance(v, ast.Call) and src(v.func) in ("json.dumps", "repr", "tuple", "str"):
+            how = src(v.func)
+    cfg = CFG(gr)
+    lookups = [n for n in cfg.nodes if n.ast is not None and any(isinstance(x, ast.Subscript) and src(x.value) == "llm_rails_instances" and isinstance(x.ctx, ast.Load) for x in walk_no_nested(n.ast))]
+    # tests on the raw ids that raise ValueError
+    val_tests = []
+    for n in cfg.nodes:
+        if n.kind == "test" and isinstance(n.stmt, ast.If) and _raises_valueerror(n.stmt):
+            for x in ast.walk(n.ast):
+                if isinstance(x, ast.Call) and src(x.func) == "re.search" and isinstance(x.args[0], ast.Constant):
+                    val_tests.append((n, x.args[0].value))
+    if how is not None:
+        inj, why = True, "the key is %s(config_ids)" % how
+    elif sep is not None:
+        rejecting = [(n, pat) for n, pat in val_tests if sep and re.search(pat, "a%sb" % sep) is not None]
+        before = [n for n, pat in rejecting if lookups and all(cfg.dominates(n, l) or _loop_dominates(cfg, n, l) for l in lookups)]
+        inj = bool(sep) and bool(before)
+        why = ("ids are joined with %r, which the id validation rejects before the cache is consulted" % sep) if inj else \
+              ("ids are joined with %r, but %s: the lists [\"a%sb\"] and [\"a\", \"b\"] share a key, and a request for folders that do not exist is answered by the cached instance of another configuration"
+               % (sep, "no validation executed before the cache lookup rejects that character" if rejecting or not sep else "valid ids may contain that character", sep))
+    else:
+        raise AnalysisError("cache key form not recognised", anchor=API + "::_generate_cache_key")
+    ctx.check("C20.a.cache-key", API, "_generate_cache_key", "instance cache key is injective on valid id lists", inj, why, line=kf.lineno)
+
+
+def _loop_dominates(cfg, test, node):
+    """a test inside a `for` over the ids that precedes `node`: the loop must have run for every id before control reaches node"""
+    st = test.stmt
+    p = getattr(st, "_parent", None)
+    while p is not None and not isinstance(p, ast.For):
+        p = getattr(p, "_parent", None)
+    if p is None:
+        return False
+    hdr = cfg.node_of(p.iter)
+    return hdr is not None and cfg.dominates(hdr, node)
+
+
+def b_threads_v2(ctx, t):
+    """Threads: the server stores the assistant reply and prepends the stored messages to the next request.  Colang 2.x rejects `assistant` messages in the input
+    (ValueError in _get_events_for_messages), so a thread of a 2.x configuration fails from its second turn on unless the server handles 2.x threads differently."""
+    lr = ctx.tree.ast("nemoguardrails/rails/llm/llmrails.py")
+    gem = find_function(lr, "_get_events_for_messages", "LLMRails")
+    rejects = False
+    if gem is not None:
+        for i in [x for x in ast.walk(gem) if isinstance(x, ast.If)]:
+            if "assistant" in src(i.test) and any(isinstance(r, ast.Raise) for r in ast.walk(i)):
+                rejects = True
+    cc = find_function(t, "chat_completion")
+    stores_assistant = cc is not None and any(isinstance(d, ast.Dict) and any(isinstance(v, ast.Constant) and v.value == "assistant" for v in d.values) for d in ast.walk(cc)) or \
+        (cc is not None and "bot_message" in src(cc) and "datastore.set" in src(cc))
+    handles = cc is not None and bool(re.search(r"colang_version", src(cc)))
+    ok = not (rejects and stores_assistant) or handles
+    ctx.check("C20.b.threads-v2", API, "chat_completion", "stored assistant replies vs. Colang 2.x input", ok,
+              "thread handling and the Colang 2.x input rules agree" if ok else
+              "the thread store contains the assistant replies and is prepended to the next request, while LLMRails rejects `assistant` input messages for Colang 2.x: with a 2.x configuration a thread answers "
+              "its first turn and then returns 'Internal server error.' for every later turn, and nothing is appended any more", line=(cc.lineno if cc else 1))
 
 
 def c_stores(ctx):
